@@ -776,6 +776,7 @@ fn spawn_caller(ctx: &Arc<RunCtx>, t: usize, acts: Vec<TAct>, mortal: Option<Arc
         if let Err(e) = r { thread_panicked(&c, &format!("vh-c{}", t), e); }
         if t < 10 { c.done_mask.fetch_or(1 << t, Ordering::SeqCst); }
         c.threads_done.fetch_add(1, Ordering::SeqCst);
+        c.note_for_firer();
         c.main.unpark();
     }));
 }
